@@ -8,3 +8,7 @@ mod cborwf;
 mod c26;
 #[cfg(kani)]
 mod c22;
+#[cfg(kani)]
+mod c21;
+#[cfg(kani)]
+mod c09;
